@@ -125,6 +125,7 @@ func checkC13(c *Ctx) *core.Result {
 			r.Fail("X1", core.QualName(root), "path enumeration", p.Pos(root.Pos()), err.Error())
 		}
 	}
+	var emptyProof map[int64]string
 	for pi := range paths {
 		path := &paths[pi]
 		type ev struct {
@@ -133,9 +134,18 @@ func checkC13(c *Ctx) *core.Result {
 		}
 		var evs []ev
 		bad := ""
+		emptySide := false // this path is taken for the empty input only
 		for _, it := range path.Items {
 			switch {
 			case it.Branch:
+				if prm := apiStringParam(root); prm != nil && (it.CondFr == nil || it.CondFr.Parent == nil) {
+					if trueIsEmpty, ok := emptyTest(it.Cond, prm); ok {
+						if it.True == trueIsEmpty {
+							emptySide = true
+						}
+						continue
+					}
+				}
 				if call, ok := it.Cond.(*ssa.Call); ok && call.Common().StaticCallee() == ctx && len(evs) > 0 {
 					if it.True {
 						evs[len(evs)-1].out = 1
@@ -199,8 +209,31 @@ func checkC13(c *Ctx) *core.Result {
 					missing = append(missing, fl)
 				}
 			}
+			sort.Slice(missing, func(i, j int) bool { return missing[i] < missing[j] })
+			if okAll && len(missing) > 0 && emptySide {
+				// `false` for the empty input without asking (all) contexts: each skipped
+				// context must be proved to answer false on the empty input
+				if emptyProof == nil {
+					var fls []int64
+					for fl := range specFlags {
+						fls = append(fls, fl)
+					}
+					emptyProof = classifierFalseOnEmpty(c, ctx, fls)
+				}
+				unproved := ""
+				for _, fl := range missing {
+					if why := emptyProof[fl]; why != "" {
+						unproved = fmt.Sprintf("context %d: %s", fl, why)
+					}
+				}
+				if unproved == "" {
+					r.OK("X1", core.QualName(root), expr+" → false for the empty input", p.Pos(path.RetPos), fmt.Sprintf("E3: the classifier answers false on the empty input in the skipped contexts %v", missing))
+				} else {
+					r.Fail("X1", core.QualName(root), "return false for the empty input before all contexts were tried", p.Pos(path.RetPos), expr+": not proved that the skipped contexts answer false on the empty input ("+unproved+")")
+				}
+				continue
+			}
 			if !okAll || len(missing) > 0 {
-				sort.Slice(missing, func(i, j int) bool { return missing[i] < missing[j] })
 				r.Fail("X1", core.QualName(root), "return false before all contexts were tried", p.Pos(path.RetPos), fmt.Sprintf("%s: false is returned without a negative verdict from contexts %v", expr, missing))
 			} else {
 				r.OK("X1", core.QualName(root), expr+" → false", p.Pos(path.RetPos), "all five contexts negative")
@@ -711,4 +744,14 @@ func quotedValueRules(p *core.Program, a *Anchors, g *stateGraph, r *core.Result
 		}
 	}
 
+}
+
+// apiStringParam: the string parameter of the API function.
+func apiStringParam(root *ssa.Function) *ssa.Parameter {
+	for _, prm := range root.Params {
+		if isStringType(prm.Type()) {
+			return prm
+		}
+	}
+	return nil
 }
